@@ -5,7 +5,7 @@ log = open(sys.argv[1]).read()
 for m in re.finditer(r'RESULT (\S+)\n\s*suite with change : (.*)\n\s*demo with change  : (.*)\n\s*demo without      : (.*)\n', log):
     d, suite, withc, without = m.groups()
     sid = os.path.basename(d)
-    ok = 'ok. 147 passed' in suite and 'FAILED' in withc and without.startswith('test result: ok')
+    ok = 'ok. 147 passed' in suite and 'FAILED' in withc and 'test result: ok' in without
     if not ok:
         print('NOT confirmed:', sid, suite, withc, without); continue
     out = os.path.join('/verif/seeded', sid)
